@@ -227,6 +227,8 @@ def stepCheck (sc : Sc) (clipsDefault uniq : Bool) (ref : List Nat) (st : St) (i
         let st := st.tag "add"
         let mg := Model.addAlignment { labels := old.labels, es := old.wes } ops sp.query
         let st := if mg.labels ≠ d.labels || mg.es ≠ d.wes then st.tag "drift-add" else st
+        let st := if Model.acyclicCert { labels := old.labels, es := old.wes } ops then st.tag "acyclic-cert"
+          else st.tag "acyclic-cert-missing"
         let st := if n > old.labels.length then { (st.tag "grow") with nt := true } else st
         let st := if !isChain d then st.tag "branched" else st
         let st := if !wellFormedB n es then st.fail ("edge-endpoint-out-of-range step=" ++ at_)
